@@ -7,6 +7,7 @@ import (
 	"time"
 
 	"github.com/openbao/openbao/v2/internal/builtin/logical/kv"
+	"github.com/openbao/openbao/v2/internal/vault"
 	"github.com/openbao/openbao/sdk/v2/logical"
 )
 
@@ -91,7 +92,9 @@ func runC12(rc *RunCtx) {
 		// a freshly created sealable namespace may start sealed
 		rootDo("", "sys/namespaces/team/unseal", logical.UpdateOperation, map[string]any{"key": teamKeys[0]})
 	}
-	for _, n := range []struct{ ns, name string }{{"team/", "sub"}, {"", "other"}} {
+	// team2/ is a sibling whose name has team/'s name as a string prefix: scope
+	// checks must compare whole path segments
+	for _, n := range []struct{ ns, name string }{{"team/", "sub"}, {"", "other"}, {"", "team2"}} {
 		if r, err := rootDo(n.ns, "sys/namespaces/"+n.name, logical.UpdateOperation, nil); err != nil || (r != nil && r.IsError()) {
 			panic(fmt.Sprint("create ns: ", err))
 		}
@@ -99,7 +102,7 @@ func runC12(rc *RunCtx) {
 	var mounts []*c12Mount
 	for _, m := range []c12Mount{
 		{ns: "", path: "app/", kind: "rec"}, {ns: "", path: "app2/", kind: "rec"}, {ns: "", path: "apple/", kind: "kv"},
-		{ns: "team/", path: "app/", kind: "rec"}, {ns: "team/sub/", path: "app/", kind: "rec"}, {ns: "other/", path: "app/", kind: "rec"}, {ns: "team/", path: "apple/", kind: "kv"},
+		{ns: "team/", path: "app/", kind: "rec"}, {ns: "team/sub/", path: "app/", kind: "rec"}, {ns: "other/", path: "app/", kind: "rec"}, {ns: "team/", path: "apple/", kind: "kv"}, {ns: "team2/", path: "app/", kind: "rec"},
 	} {
 		m := m
 		if tp.Pick(6) == 5 && len(mounts) > 2 {
@@ -161,6 +164,13 @@ func runC12(rc *RunCtx) {
 		panic(fmt.Sprint("team token: ", err))
 	}
 	teamTok := tr.Auth.ClientToken
+	// a token of team/ holding the root policy (what generate-root yields for a
+	// namespace): all-powerful inside team/ and below, nothing outside
+	teamRootTok, err := vault.VerifNamespaceRootToken(h.Core, "team/")
+	if err != nil || teamRootTok == "" {
+		panic(fmt.Sprint("team root token: ", err))
+	}
+	isTeamTok := func(t string) bool { return t == teamTok || t == teamRootTok }
 
 	viol := func(class string, sig map[string]any, f string, a ...any) { s.Violate("C12", class, sig, f, a...) }
 
@@ -316,9 +326,9 @@ func runC12(rc *RunCtx) {
 				nsHeader, full = parts[0]+"/", parts[1]+p
 			}
 		case 2: // wrong namespace header
-			nsHeader = []string{"", "team/", "other/", "team/sub/", "nosuch/"}[tp.Pick(5)]
+			nsHeader = []string{"", "team/", "other/", "team/sub/", "nosuch/", "team2/"}[tp.Pick(6)]
 		}
-		tok := []string{h.Root, rootTok, teamTok}[tp.Pick(3)]
+		tok := []string{h.Root, rootTok, teamTok, teamRootTok}[tp.Pick(4)]
 		op := []logical.Operation{logical.ReadOperation, logical.ReadOperation, logical.UpdateOperation, logical.ListOperation, logical.DeleteOperation}[tp.Pick(5)]
 		r := Req{Op: op, Path: full, Token: tok, NS: nsHeader}
 		if op == logical.UpdateOperation {
@@ -409,15 +419,36 @@ func runC12(rc *RunCtx) {
 				return
 			}
 			// (d) namespace scope of the team token
-			if sh.req.Token == teamTok && !strings.HasPrefix(m.ns, "team/") {
+			if isTeamTok(sh.req.Token) && !strings.HasPrefix(m.ns, "team/") {
 				viol("token-authorised-outside-its-namespace", map[string]any{"target_ns": m.ns}, "the team/ token obtained the canary of %s%s (%s)", m.ns, m.path, sh.desc)
 				return
 			}
 		}
 		// (existence checks legitimately run before the ACL; only operation handlers count)
-		if oh := opHandler[id]; sh.req.Token == teamTok && oh != nil && !strings.HasPrefix(oh.ns, "team/") {
+		if oh := opHandler[id]; isTeamTok(sh.req.Token) && oh != nil && !strings.HasPrefix(oh.ns, "team/") {
 			viol("token-authorised-outside-its-namespace", map[string]any{"target_ns": oh.ns}, "a request with the team/ token reached an operation handler of %s%s (%s)", oh.ns, oh.path, sh.desc)
 			return
+		}
+	}
+	// (d) swept deterministically: neither team/ token obtains anything from a
+	// mount of the root namespace, other/ or team2/
+	for _, m := range mounts {
+		if strings.HasPrefix(m.ns, "team/") || m.kind != "rec" {
+			continue
+		}
+		for ti, tk := range []string{teamTok, teamRootTok} {
+			before := len(rec.Snapshot())
+			r, _ := h.Do("neg", Req{Op: logical.ReadOperation, Path: m.path + "data/probe", Token: tk, NS: m.ns})
+			reached := false
+			for _, e := range rec.Snapshot()[before:] {
+				if e.Kind == "handler" {
+					reached = true
+				}
+			}
+			if respHasCanary(r, m.canary) || reached {
+				viol("token-authorised-outside-its-namespace", map[string]any{"target_ns": m.ns}, "a token of team/ (%s) read %s%sdata/probe: canary returned=%v, handler reached=%v", []string{"policy tp", "root policy"}[ti], m.ns, m.path, respHasCanary(r, m.canary), reached)
+				return
+			}
 		}
 	}
 	// positive control for (d): the team token works inside team/ and team/sub/
